@@ -19,6 +19,122 @@ def run(ctx: common.Ctx):
     ctx.require_coq(['properties/C19'], extra_targets=['RepeatedRun'])
     c03.run_slots(ctx, ('C19',), ctx.scale(210, 1500), 8)
     probe_ancestor_into_descendant(ctx)
+    probe_whole_field_refusals(ctx)
+
+
+def probe_whole_field_refusals(ctx: common.Ctx):
+    """Whole-field assignment of a repeated field (dst.raw_xs = src.raw_xs) with a wrapper that is still attached to
+    another model - of the same document, of a second parse, of a document without a final newline; empty and
+    non-empty lists - must be refused, and afterwards text, tokens, tree AND the accessors of both sides are what
+    they were: dst.raw_xs is still dst's list (same items), its value views read the same, and an edit made through
+    dst's accessor edits dst, not src."""
+    import copy, random
+    from autobean_refactor.models import base
+    from harness import gen_docs, treewalk
+
+    def rep_slots(f):
+        out = []
+        for path, m in treewalk.walk(f):
+            if not isinstance(m, base.RawTreeModel) or path == 'root':
+                continue
+            for name, kind, _ in c03.slots_of(m):
+                if kind == 'rep':
+                    out.append((path, m, name))
+        return out
+
+    def views(m):
+        d = {}
+        for name in dir(type(m)):
+            if name.startswith('_'):
+                continue
+            try:
+                v = getattr(m, name)
+            except Exception:
+                continue
+            if hasattr(v, '__iter__') and hasattr(v, '__len__') and not isinstance(v, (str, bytes, dict)) and not hasattr(v, 'keys'):
+                try:
+                    d[name] = [(id(x) if isinstance(x, base.RawModel) else repr(x)) for x in v]
+                except Exception:
+                    pass
+        return d
+
+    fixed = ['2000-01-01 open Assets:A USD, EUR\n2000-01-02 open Assets:B\n2000-01-03 open Assets:C CAD',
+             '2000-01-01 * "n" #t1 ^l1\n  Assets:A  1 USD\n2000-01-02 * "m"\n  Assets:B  1 USD\n2000-01-03 * "k" #t2']
+    n = ctx.scale(40, 300)
+    for k in range(n + len(fixed)):
+        r = random.Random(ctx.rng.randrange(1 << 30))
+        text = fixed[k] if k < len(fixed) else gen_docs.ledger(r)
+        if k >= len(fixed) and r.random() < 0.4:
+            text = text.rstrip('\r\n')          # no final newline: the last directive ends the store
+        f, g = gen_docs.parse_ok(text, True), gen_docs.parse_ok(text, True)
+        if f is None or g is None:
+            continue
+        sf, sg = rep_slots(f), rep_slots(g)
+        if not sf:
+            continue
+        for _ in range(4):
+            i = r.randrange(len(sf))
+            dpath, dst, name = sf[i]
+            same_doc = r.random() < 0.4
+            cands = [(p_, m_, n_) for p_, m_, n_ in (sf if same_doc else sg)
+                     if n_ == name and type(m_) is type(dst) and m_ is not dst]
+            if not same_doc and r.random() < 0.5:
+                cands = [c_ for c_ in cands if c_[0] == dpath] or cands       # the twin position of the other parse
+            if not cands:
+                continue
+            spath, src, _ = r.choice(cands)
+            sdoc = f if same_doc else g
+            try:
+                dw, sw = getattr(dst, name), getattr(src, name)
+                before = (gen_docs.print_model(f), gen_docs.print_model(sdoc), [id(t) for t in f.token_store],
+                          [id(t) for t in sdoc.token_store], treewalk.dump(f), treewalk.dump(sdoc), views(dst), views(src))
+            except Exception:
+                continue
+            w = {'text': text, 'dst': dpath, 'src': spath, 'field': name, 'same_document': same_doc}
+            ctx.count('whole_field_refusal_probes')
+            ctx.dist('whole-field-src-empty=' + str(len(sw) == 0))
+            try:
+                setattr(dst, name, sw)
+            except ValueError:
+                pass
+            except Exception as e:
+                ctx.monitor_failure(c03.SIG_ATOMIC, f'{dpath}.{name} = <attached list of {spath}> raised {type(e).__name__}', w)
+                break
+            else:
+                ctx.monitor_failure(c03.SIG_REUSE, f'{dpath}.{name} = {spath}.{name} (a list still attached to its model) was accepted: '
+                                    f'source document now prints {gen_docs.print_model(sdoc)[:80]!r}', w)
+                break
+            try:
+                after = (gen_docs.print_model(f), gen_docs.print_model(sdoc), [id(t) for t in f.token_store],
+                         [id(t) for t in sdoc.token_store], treewalk.dump(f), treewalk.dump(sdoc), views(dst), views(src))
+            except Exception as e:
+                ctx.monitor_failure(c03.SIG_ATOMIC, f'after the refused {dpath}.{name} = {spath}.{name} the documents cannot be read: {type(e).__name__}', w)
+                break
+            what = [nm for nm, a_, b_ in zip(('target text', 'source text', 'target tokens', 'source tokens', 'target tree', 'source tree',
+                                              'accessors of the target', 'accessors of the source'), before, after) if a_ != b_]
+            if getattr(dst, name) is not dw:
+                try:
+                    same_items = [id(x) for x in getattr(dst, name)] == [id(x) for x in dw]
+                except Exception:
+                    same_items = False
+                if not same_items:
+                    what.append('the target\'s list accessor')
+            if what:
+                ctx.monitor_failure(c03.SIG_ATOMIC, f'{dpath}.{name} = {spath}.{name} was refused (attached list) but changed: ' + ', '.join(what), w)
+                break
+            # an edit through the target's accessor edits the target, and only it
+            if len(getattr(dst, name)):
+                t_src = gen_docs.print_model(sdoc) if not same_doc else None
+                s_items = [id(x) for x in getattr(src, name)]
+                try:
+                    getattr(dst, name).pop(0)
+                except Exception:
+                    break
+                if (t_src is not None and gen_docs.print_model(sdoc) != t_src) or [id(x) for x in getattr(src, name)] != s_items \
+                        or gen_docs.print_model(f) == before[0]:
+                    ctx.monitor_failure(c03.SIG_ATOMIC, f'after the refused {dpath}.{name} = {spath}.{name}, an edit through {dpath}.{name} '
+                                        f'did not edit the target (or edited the source)', w)
+                break      # the documents are edited now: next pair
 
 
 SIG_ANCESTOR = 'C19:refusal-not-atomic:ancestor-into-descendant'   # known finding (same root cause as D15)
